@@ -381,7 +381,10 @@ func newGSIBlock(s Subtitles) (g *gsiBlock) {
 		g.displayStandardCode = s.Metadata.STLDisplayStandardCode
 		g.editorContactDetails = s.Metadata.STLEditorContactDetails
 		g.editorName = s.Metadata.STLEditorName
-		g.framerate = s.Metadata.Framerate
+		// Metadata coming from another format have no valid framerate, in which case we keep the default one
+		if _, ok := stlFramerateMapping.GetInverse(s.Metadata.Framerate); ok {
+			g.framerate = s.Metadata.Framerate
+		}
 		if v, ok := stlLanguageMapping.GetInverse(s.Metadata.Language); ok {
 			g.languageCode = v.(string)
 		}
